@@ -1,10 +1,10 @@
 """Native oracles for C16: explicit per-(detector, direction, sample) NumPy loop — Z-Y-Z Euler rotation of the detector
 direction, pixel lookup, Mueller row — against the real furax operators.  Run with 64-bit mode on (spec['x64']).
 
-`projection` / `acquisition` call the real factories of the unchanged tree.  `*_patched` do the same with
-furax.projections.IndexOperator replaced, IN THE ORACLE PROCESS ONLY, by a wrapper that passes `out_structure`
-explicitly to the real constructor: this works around finding C16-F1 (the constructor raises AttributeError without
-it) so that the rest of the factories' real bodies can be compared with the explicit model."""
+`projection` / `acquisition` call the real factories.  `*_patched` do the same with furax.projections.IndexOperator
+replaced, IN THE ORACLE PROCESS ONLY, by a wrapper that passes `out_structure` explicitly to the real constructor: on a
+tree that still has finding C16-F1 (constructor raising AttributeError; fixed by /repo 7013af6) this lets the rest of
+the factories' real bodies be compared with the explicit model.  The pack itself uses the unpatched oracles."""
 import numpy as np
 
 import jax
